@@ -5,11 +5,14 @@ import (
 	"os"
 	"sort"
 	"strconv"
+	"strings"
+	"time"
 
 	"verif/checks"
 	"verif/drv"
 	"verif/eng"
 	"verif/ev"
+	"verif/m"
 )
 
 func usage() {
@@ -85,6 +88,24 @@ func main() {
 		}
 		run := ev.NewRun(root, id, tier, c.Level)
 		code := 2
+		eng.OnWorkerPanic = func(p interface{}, stack string) {
+			where := "unknown"
+			for _, l := range strings.Split(stack, "\n") {
+				if strings.Contains(l, "/repo/") {
+					where = strings.TrimSpace(l)
+					break
+				}
+			}
+			run.NotExhaustive("a worker ended early because the library panicked")
+			run.Violation("panic|worker|"+where, fmt.Sprintf("the library panicked under a harness worker: %v\n%s", p, stack), map[string]interface{}{"engine": "worker", "panic": fmt.Sprint(p), "stack": stack})
+		}
+		// an operation that does not return within five minutes is reported as blocking forever, with the operation
+		drv.StartHangMonitor(5*time.Minute, func(backend string, op m.Op, d time.Duration) {
+			run.NotExhaustive("the check was ended by the hang monitor")
+			run.Violation("hang|"+backend+"|"+op.K, fmt.Sprintf("[%s] %s has not returned after %s: the operation blocks forever (or an earlier operation wedged the database)", backend, op, d.Round(time.Second)),
+				map[string]interface{}{"engine": "hang-monitor", "backend": backend, "op": op})
+			os.Exit(run.Finish("ended by the hang monitor before the enumeration completed"))
+		})
 		func() {
 			defer drv.Cleanup()
 			rule := c.Run(run, tier)
